@@ -46,12 +46,13 @@ Fixpoint list_eqb {A} (eqb : A -> A -> bool) (a b : list A) : bool :=
 Definition norm_res (r : mres) : mres := match r with MVal v => MVal (norm v) | _ => r end.
 Definition is_oof (r : mres) : bool := match r with MOOF => true | _ => false end.
 
-(* 0 ok.
-   1: M <> observed, but the observed behaviour is what S demands, or the program is outside the guard and
-      the unchanged code did not meet S there either (no failing input established); also: a case that is
-      not well-formed or on which M ran out of fuel (harness mistake).
-   2: M <> observed and the observed behaviour is not what S demands, for a program inside the guard or one
-      on which the unchanged code (M) met S: a failing input.
+(* 0 ok: the observation is what M says, or (a repaired defect) it is what S demands.
+   1: observed <> M and observed <> S, outside the guard, on a program where M <> S as well (the behaviour
+      inside a known-defect region changed to something that is still not the reference: no failing input
+      is established by this check); also: a case that is not well-formed or on which M ran out of fuel
+      (harness mistake).
+   2: observed <> M and observed <> S for a program inside the guard or one on which the unchanged code (M)
+      met S: a failing input.
    3: self-check: M = observed, inside the guard, but M <> S (impl_eq_ref would be false). *)
 Definition check_case (c : case) : N :=
   let '(p, vs, ores, otr, (ol, of_)) := c in
@@ -68,7 +69,8 @@ Definition check_case (c : case) : N :=
   let g := guard p in
   if negb (wf_prog p) || is_oof mr then 1%N
   else if agree then (if g && negb m_is_s then 3%N else 0%N)
-  else if negb o_is_s && (g || m_is_s) then 2%N else 1%N.
+  else if o_is_s then 0%N
+  else if g || m_is_s then 2%N else 1%N.
 
 Fixpoint check_all_from (i : N) (cs : list case) : list (N * N) :=
   match cs with
